@@ -92,6 +92,8 @@ def build(cfg, sels, seed=0):
         elif v == "rand":
             row.update(type=f"select_multiple {LN['L']}", parameters="randomize=true")
             s["wrap"] = "rand"
+        elif v == "randfalse":
+            row.update(type=f"select_one {LN['L']}", parameters="randomize=false")
         elif v == "randseed":
             row.update(type=f"select_one {LN['L']}", parameters="randomize=true seed=42")
             s.update(wrap="rand", seed="42")
@@ -176,10 +178,15 @@ def build(cfg, sels, seed=0):
     if e == 6:
         survey.append({"type": "integer", "name": "lc", "label": "LC", "required": "yes", "constraint": ". > ${last-saved#sd}"})
         ext("__last-saved", "jr://instance/last-saved")
+    if e in (7, 8):
+        kind = "repeat" if e == 7 else "group"
+        survey += [{"type": f"begin {kind}", "name": "pdsec", "label": "PDS", "relevant": "pulldata('rf', 'a', 'b', ${st}) = 'x'"},
+                   {"type": "text", "name": "pdq", "label": "PDQ"}, {"type": f"end {kind}"}]
+        ext("rf", "jr://file-csv/rf.csv")
     if e == 5:
         survey.append({"type": "calculate", "name": "pd3", "calculation": "pulldata('cf', 'a', 'b', ${st})"})
         ext("cf", "jr://file-csv/cf.csv")
-    scols = ["type", "name", "label", "choice_filter", "parameters", "appearance", "calculation", "default", "required", "constraint"]
+    scols = ["type", "name", "label", "choice_filter", "parameters", "appearance", "calculation", "default", "required", "constraint", "relevant"]
     scols = [c for c in scols if c in ("type", "name", "label") or any(c in r for r in survey)]
     sheets = [{"name": "survey", "header": scols, "rows": [[r.get(c) for c in scols] for r in survey]},
               {"name": "choices", "header": ccols, "rows": [[r.get(c) for c in ccols] for r in order]}]
